@@ -10,7 +10,7 @@ CHECK = dict(
              "one tag; distinct by (kind of the interrupted operation, system call and file class at k, pre-state class).",
         jobs=[REPLAY,
               plain("kinds", "TestVerifKinds", sq=16, st=16),
-              rapid("prop", "TestVerifProp", 160, 2400, sq=16, st=16, shrinktime="30s")],
+              rapid("prop", "TestVerifProp", 144, 2400, sq=16, st=16, shrinktime="30s")],
         technique="crash-point fault injection: a stdlib ptrace supervisor kills a driver process at every (kind matrix, thorough) "
                   "or at sampled and window-targeted (quick) mutating system calls of rapid-generated operation scripts; the "
                   "surviving directory is judged by an independent layout reader (os/encoding/json/crypto only), by a fresh "
@@ -20,7 +20,15 @@ CHECK = dict(
                    "the quantifier, each from an absent/empty directory, from a blobs-only directory and from a populated layout) "
                    "and, in the thorough tier, for every generated script, EVERY crash position k in 1..N is executed. Scripts "
                    "themselves (pre-history 0-6 macro operations, 1-3 victim operations over a small deterministic content "
-                   "universe) are sampled, not enumerated.",
+                   "universe) are sampled, not enumerated. Dimensions drawn (class labels dim:* in the evidence): reference form of the "
+                   "target (tag, digest, tag+digest, bare = default tag), digest algorithm of blobs and of manifests (sha256/sha512), "
+                   "media types (OCI/Docker image, OCI index, Docker list, OCI artifact manifest, index with subject), duplicate "
+                   "layers/children, blob sizes around the 32 KiB copy buffer, BlobPut descriptor variants (full, none, digest only, "
+                   "size only, wrong digest, wrong size), BlobDelete, ManifestDelete forms/options, copy options (referrers, digest "
+                   "tags, force-recursive, fast-check, platforms, retag inside the layout, digest target), tar forms (ordered, reversed, "
+                   "gzip, multi-image with name, docker save), layouts written by other tools before the first operation (full image "
+                   "name or containerd annotations, duplicate ref.name, all-untagged, stale temp files and foreign spelling), relative "
+                   "layout path, a cancelled context for single-call operations, and the CLI pattern 'operation then Close'.",
         level_note="Trusted: the independent reader harness/c07/layout.go, the supervisor's syscall decoding "
                    "(harness/crashrun), the uninterrupted run of the same script as the meaning of 'intended state'. Crash = "
                    "process death (page cache survives); power loss / fsync ordering is outside the statement. Under a "
